@@ -63,48 +63,47 @@ func LZWEncode(data []byte, opt LZWOptions) []byte {
 	var bw bitWriter
 	width := uint(9)
 	next := lzwFirst
-	table := map[string]int{}
+	// The table maps (code of the string w, next byte c) to the code of the
+	// string wc; w itself is only kept as its code (-1: empty).
+	type key struct {
+		prefix int
+		c      byte
+	}
+	table := map[key]int{}
 	reset := func() {
 		width = 9
 		next = lzwFirst
-		table = map[string]int{}
+		table = map[key]int{}
 	}
 	if !opt.NoFirstClear {
 		bw.write(lzwClear, width)
 	}
-	codeOf := func(s []byte) int {
-		if len(s) == 1 {
-			return int(s[0])
-		}
-		return table[string(s)]
-	}
-	var w []byte
+	w := -1
 	for _, c := range data {
-		wc := append(append([]byte{}, w...), c)
-		if len(wc) == 1 {
-			w = wc
+		if w < 0 {
+			w = int(c)
 			continue
 		}
-		if _, ok := table[string(wc)]; ok {
-			w = wc
+		if code, ok := table[key{w, c}]; ok {
+			w = code
 			continue
 		}
-		bw.write(uint(codeOf(w)), width)
-		table[string(wc)] = next
+		bw.write(uint(w), width)
+		table[key{w, c}] = next
 		next++
 		// the entry just created is next-1
 		if next-1+early == 1<<width && width < 12 {
 			width++
 		}
-		w = []byte{c}
+		w = int(c)
 		full := next-1+early == 4095
 		if full || (opt.ClearAfter > 0 && next-lzwFirst >= opt.ClearAfter) {
 			bw.write(lzwClear, width)
 			reset()
 		}
 	}
-	if len(w) > 0 {
-		bw.write(uint(codeOf(w)), width)
+	if w >= 0 {
+		bw.write(uint(w), width)
 		// the decoder creates one more entry when it sees the next code
 		next++
 		if next-1+early == 1<<width && width < 12 {
@@ -160,6 +159,8 @@ type LZWStats struct {
 	Clears   int // clear-table codes other than a leading one
 	Codes    int
 	Widths   [13]int // number of codes read at each width
+	// MaxString is the length of the longest table string a code stood for.
+	MaxString int
 
 	// the end of the stream
 	TailCodes     int // data codes between the last clear-table code and EOD
@@ -234,6 +235,9 @@ func LZWDecode(enc []byte, earlyChange bool) ([]byte, LZWStats, error) {
 			return out, st, fmt.Errorf("lzw: invalid code %d (next free entry %d)", code, next)
 		}
 		out = append(out, cur...)
+		if len(cur) > st.MaxString {
+			st.MaxString = len(cur)
+		}
 		st.TailCodes++
 		st.LastDataWidth = int(width)
 		if prev != nil && next < 4096 {
